@@ -69,6 +69,11 @@ type c15Input struct {
 	// Get key Live} while another goroutine runs Cleanup back to back
 	Rounds int `json:"rounds,omitempty"`
 	Live   int `json:"live,omitempty"`
+	// what the second goroutine does meanwhile: cleanup (default; the client then also Sets the three other
+	// keys with ttl 1 and advances 2 s each round) | delete | reset | set | mixed - on the other keys of the
+	// key set plus Extra keys of its own
+	Racer string `json:"racer,omitempty"`
+	Extra int    `json:"extra,omitempty"`
 }
 
 var longKey = strings.Repeat("L", 300)
@@ -488,6 +493,9 @@ type gateClock struct {
 	armed   bool
 	entered chan struct{}
 	gate    chan struct{}
+	// set once some Stop call has returned; from then on every clock read by the cache is counted
+	stopReturned atomic.Bool
+	lateReads    atomic.Int64
 }
 
 func newGateClock(mono bool) *gateClock {
@@ -495,6 +503,9 @@ func newGateClock(mono bool) *gateClock {
 }
 
 func (g *gateClock) Now() time.Time {
+	if g.stopReturned.Load() {
+		g.lateReads.Add(1)
+	}
 	g.mu.Lock()
 	if g.armed {
 		g.armed = false
@@ -521,9 +532,10 @@ type stopCall struct {
 
 // stopCaller is the entry function of every goroutine that calls Stop in a stops case (named, so
 // that parkedStopCallers can find these goroutines in a stack dump).
-func stopCaller(c *ttlcache.Cache[int64], sc *stopCall, gateOpen *atomic.Bool, returned *atomic.Int32, wg *sync.WaitGroup) {
+func stopCaller(c *ttlcache.Cache[int64], clk *gateClock, sc *stopCall, gateOpen *atomic.Bool, returned *atomic.Int32, wg *sync.WaitGroup) {
 	defer wg.Done()
 	c.Stop()
+	clk.stopReturned.Store(true)
 	ex := c.VerifCleanerExited()
 	sc.heldThen.Store(!gateOpen.Load())
 	sc.exited.Store(ex)
@@ -628,7 +640,7 @@ func c15RunStops(ctx *core.Ctx, in c15Input) {
 	for i := range calls {
 		calls[i] = &stopCall{}
 		wg.Add(1)
-		go stopCaller(c, calls[i], &gateOpen, &returned, &wg)
+		go stopCaller(c, clk, calls[i], &gateOpen, &returned, &wg)
 		if in.Staggered && !settle(i+1, &returned) {
 			settled = false
 		}
@@ -639,6 +651,18 @@ func c15RunStops(ctx *core.Ctx, in c15Input) {
 	if held && in.LingerMs > 0 {
 		// not a judgement: only gives a Stop that gives up waiting after a while the time to do so
 		time.Sleep(time.Duration(in.LingerMs) * time.Millisecond)
+	}
+	storedKeys := func() string {
+		ks := c.VerifKeys()
+		sort.Strings(ks)
+		return strings.Join(ks, "\x1f")
+	}
+	// a Stop is back although the periodic pass is still parked inside Cleanup: remember what is stored now
+	// and, once the pass is released, watch whether it goes on to change the map (a fact when seen)
+	earlyReturn := held && returned.Load() > 0
+	keysAtEarlyReturn := ""
+	if earlyReturn {
+		keysAtEarlyReturn = storedKeys()
 	}
 	gateOpen.Store(true)
 	close(clk.gate) // the cleaner goes on (also harmless when nothing is parked on it)
@@ -669,9 +693,35 @@ func c15RunStops(ctx *core.Ctx, in c15Input) {
 		}
 		obs = append(obs, p)
 	}
+	allBack := true
+	for _, p := range obs {
+		allBack = allBack && p.Returned
+	}
+	keysWhenAllBack := ""
+	if allBack {
+		keysWhenAllBack = storedKeys()
+	}
+	mutatedLate := false
+	if earlyReturn {
+		deadline := time.Now().Add(500 * time.Millisecond)
+		for !mutatedLate && time.Now().Before(deadline) {
+			mutatedLate = storedKeys() != keysAtEarlyReturn
+			if !mutatedLate {
+				time.Sleep(200 * time.Microsecond)
+			}
+		}
+	}
 	// one more, sequential, Stop after everything (idempotence)
 	r2, e2 := stop(c)
 	obs = append(obs, pair{Returned: r2, Exited: e2})
+	if allBack {
+		for i := 0; i < 20 && !mutatedLate; i++ {
+			runtime.Gosched()
+			mutatedLate = storedKeys() != keysWhenAllBack
+		}
+	}
+	lateReads := clk.lateReads.Load()
+	late := early > 0 || lateReads > 0 || mutatedLate
 	parts := make([]string, len(obs))
 	for i, p := range obs {
 		parts[i] = fmt.Sprintf("(%s, %s)", hx.CoqBool(p.Returned), hx.CoqBool(p.Exited))
@@ -680,8 +730,9 @@ func c15RunStops(ctx *core.Ctx, in c15Input) {
 	cs.Class = fmt.Sprintf("stops/n%d/hold=%v/staggered=%v/prefill=%d/keyset=%d", in.Callers, in.Hold, in.Staggered, len(in.Ops), in.KeySet)
 	cs.Trivial = !(held || in.Callers >= 2)
 	cs.Observed = map[string]any{"calls": obs, "cleaner_held_in_cleanup": held, "callers_settled_before_release": settled,
-		"returned_while_cleaner_held": early}
-	cs.Coq = "CStops " + hx.CoqList(parts)
+		"returned_while_cleaner_held": early, "clock_reads_after_a_stop_returned": lateReads,
+		"stored_keys_changed_after_a_stop_returned": mutatedLate}
+	cs.Coq = "CStops " + hx.CoqList(parts) + " " + hx.CoqBool(late)
 	ctx.Sink.Count("kind=stops")
 	ctx.Sink.Count(fmt.Sprintf("stops/callers=%d", in.Callers))
 	switch {
@@ -717,7 +768,7 @@ func c15RunStops(ctx *core.Ctx, in c15Input) {
 // history is the failing round (or the last one) preceded by the Reset that ended the round
 // before it - nothing older than a Reset can justify a hit.
 func c15RunResetRace(ctx *core.Ctx, in c15Input) {
-	if in.Rounds < 1 || in.Live < 0 || in.Live >= nKeys {
+	if in.Rounds < 1 || in.Live < 0 || in.Live >= nKeys || in.Extra < 0 || in.Extra > 256 {
 		panic("c15: bad resetrace input")
 	}
 	clk := newClock(in.Mono)
@@ -726,17 +777,67 @@ func c15RunResetRace(ctx *core.Ctx, in c15Input) {
 		CleanupInterval: time.Duration(math.MaxInt64),
 		MaxTTL:          in.MaxTTL,
 	}, clk)
+	racer := in.Racer
+	if racer == "" {
+		racer = "cleanup"
+	}
+	// the racer's keys: the other keys of the key set + a few more that no client operation ever
+	// names (they only have to be list neighbours of the client's key inside the map)
+	var rkeys []string
+	for k := 0; k < nKeys; k++ {
+		if k != in.Live {
+			rkeys = append(rkeys, keyName(in.KeySet, k))
+		}
+	}
+	for i := 0; i < in.Extra; i++ {
+		rkeys = append(rkeys, fmt.Sprintf("\x02racer-%d", i))
+	}
 	quit := make(chan struct{})
 	var wg sync.WaitGroup
 	wg.Add(1)
 	go func() {
 		defer wg.Done()
-		for {
+		for n := int64(0); ; n++ {
 			select {
 			case <-quit:
 				return
 			default:
+			}
+			switch racer {
+			case "cleanup":
 				c.Cleanup()
+			case "delete": // Set and Delete keys of its own
+				for _, k := range rkeys {
+					c.Set(k, n, 1000)
+				}
+				for _, k := range rkeys {
+					c.Delete(k)
+				}
+			case "reset": // Set keys of its own, then Reset
+				for _, k := range rkeys {
+					c.Set(k, n, 1000)
+				}
+				c.Reset()
+			case "set": // only Sets keys of its own (the client's Reset removes them: fresh insertions)
+				for _, k := range rkeys {
+					c.Set(k, n, 1000)
+				}
+			case "mixed":
+				for i, k := range rkeys {
+					c.Set(k, n, 1+int64(i%2)*999)
+				}
+				switch n % 3 {
+				case 0:
+					c.Delete(rkeys[int(n/3)%len(rkeys)])
+				case 1:
+					c.Cleanup()
+				default:
+					for _, k := range rkeys {
+						c.Delete(k)
+					}
+				}
+			default:
+				panic("c15: bad racer " + racer)
 			}
 		}
 	}()
@@ -755,18 +856,40 @@ func c15RunResetRace(ctx *core.Ctx, in c15Input) {
 			obs = append(obs, r)
 			return r
 		}
-		if round > 0 {
-			lin = append(lin, c15Op{Op: "reset"}) // the Reset that ended the previous round
+		note := func(o c15Op) { // issued by the racer, unserialised, all along: the history only notes it
+			lin = append(lin, o)
 			obs = append(obs, c15Res{Kind: "unit"})
 		}
-		lin = append(lin, c15Op{Op: "cleanup"}) // Cleanups run unserialised all along
-		obs = append(obs, c15Res{Kind: "unit"})
-		for k := 0; k < nKeys; k++ {
-			if k != in.Live {
-				do(c15Op{Op: "set", K: k, V: int64(k), TTL: 1})
+		if round > 0 {
+			note(c15Op{Op: "reset"}) // the Reset that ended the previous round
+		}
+		if racer == "cleanup" {
+			note(c15Op{Op: "cleanup"})
+			for k := 0; k < nKeys; k++ {
+				if k != in.Live {
+					do(c15Op{Op: "set", K: k, V: int64(k), TTL: 1})
+				}
+			}
+			do(c15Op{Op: "adv", D: 2 * secondNs})
+		} else {
+			for k := 0; k < nKeys; k++ {
+				if k != in.Live {
+					note(c15Op{Op: "set", K: k, V: 0, TTL: 1000})
+					if racer == "delete" || racer == "mixed" {
+						note(c15Op{Op: "del", K: k})
+					}
+				}
+			}
+			if racer == "reset" {
+				note(c15Op{Op: "reset"})
+			}
+			if racer == "mixed" {
+				note(c15Op{Op: "cleanup"})
+				if round%64 == 0 {
+					do(c15Op{Op: "adv", D: 2 * secondNs})
+				}
 			}
 		}
-		do(c15Op{Op: "adv", D: 2 * secondNs})
 		do(c15Op{Op: "set", K: in.Live, V: int64(1000 + round), TTL: 1000})
 		do(c15Op{Op: "reset"})
 		if r := do(c15Op{Op: "get", K: in.Live}); r.Kind == "hit" {
@@ -782,7 +905,7 @@ func c15RunResetRace(ctx *core.Ctx, in c15Input) {
 	}
 	returned, exited := stop(c)
 	cs := hx.Case{Kind: "resetrace", Input: hx.MustJSON(in), Facts: map[string]any{"maxttl": in.MaxTTL}}
-	cs.Class = fmt.Sprintf("resetrace/keyset=%d/live=%d/max%d", in.KeySet, in.Live, in.MaxTTL)
+	cs.Class = fmt.Sprintf("resetrace/%s/keyset=%d/live=%d/extra=%d/max%d", racer, in.KeySet, in.Live, in.Extra, in.MaxTTL)
 	cs.Trivial = failed < 0 // a probe: nothing to tell apart unless it fails
 	cs.Observed = map[string]any{"rounds_run": ran, "failing_round": failed, "history": lin, "results": obs,
 		"history_starts_after_the_previous_rounds_reset": ran > 1, "stop_returned": returned, "cleaner_exited": exited}
@@ -793,6 +916,7 @@ func c15RunResetRace(ctx *core.Ctx, in c15Input) {
 		hx.CoqBool(returned), hx.CoqBool(exited))
 	ctx.Sink.Count("kind=resetrace")
 	ctx.Sink.Count(fmt.Sprintf("resetrace/keyset=%d", in.KeySet))
+	ctx.Sink.Count("resetrace/racer=" + racer)
 	ctx.Sink.Add(cs)
 }
 
@@ -1059,8 +1183,18 @@ func c15Gen(ctx *core.Ctx) {
 							in.LingerMs = 200
 						}
 						if fill {
+							// half of the filled maps: 1 s entries and a tick >= 1.5 s away, so that the pass
+							// started by the tick has something to delete
+							short := r.Bool()
+							if short {
+								in.Interval = int64(r.Range(3, 4)) * secondNs / 2
+							}
 							for i, n := 0, r.Range(1, 6); i < n; i++ {
-								in.Ops = append(in.Ops, c15Op{Op: "set", K: r.Intn(nKeys), V: int64(500 + i), TTL: int64(r.Range(1, 3))})
+								ttl := int64(r.Range(1, 3))
+								if short && i < 3 {
+									ttl = 1
+								}
+								in.Ops = append(in.Ops, c15Op{Op: "set", K: r.Intn(nKeys), V: int64(500 + i), TTL: ttl})
 							}
 						}
 						c15Run(ctx, in)
@@ -1070,13 +1204,17 @@ func c15Gen(ctx *core.Ctx) {
 		}
 	}
 	// --- Set racing a Cleanup's bulk delete, then Reset -------------------------------------
-	nrr, rounds2 := 2, 25000
+	nrr, rounds2 := 8, 40000
 	if ctx.Thorough {
-		nrr, rounds2 = 20, 400000
+		nrr, rounds2 = 48, 400000
 	}
+	racers := []string{"cleanup", "delete", "reset", "delete", "set", "delete", "mixed", "delete"}
 	for i := 0; i < nrr; i++ {
-		in := c15Input{Kind: "resetrace", KeySet: i % len(keySets), Live: r.Intn(nKeys), Rounds: rounds2,
-			MaxTTL: []int64{0, 0, 2000}[r.Intn(3)]}
+		in := c15Input{Kind: "resetrace", KeySet: r.Intn(len(keySets)), Live: r.Intn(nKeys), Rounds: rounds2,
+			Racer: racers[i%len(racers)], MaxTTL: []int64{0, 0, 2000}[r.Intn(3)]}
+		if in.Racer != "cleanup" && r.Bool() {
+			in.Extra = 12
+		}
 		if r.Chance(1, 3) {
 			in.InitialSize = int32(r.Range(1, 64))
 		}
